@@ -563,7 +563,6 @@ MargLB, _ = _IT.defpred_all("MargLB", _MSORTS, lambda x: x[6], lambda x, p: z3.I
 MargAny, _ = _IT.defpred_some("MargAny", _MSORTS[:5] + [L.Int], lambda x: x[5], _m_hit, lambda x, p: LStr.at(x[0], p), step=True)
 
 MOCF = TObj("PreOCF", {"ranks": RanksT, "signature": TOptional(TList(TStr)), "_metadata": TOpaque, "conditionals": TOpaque})
-COCF = TObj("CustomPreOCF", {"ranks": RanksT, "signature": TOptional(TList(TStr)), "_metadata": TOpaque, "conditionals": TOpaque})
 
 
 def _marg_facts(d0, sig, marg, r, n, tag):
@@ -605,18 +604,57 @@ def _marg_post(c, r):
     ]
 
 
+# --- constructors: PreOCF.__init__ <- CustomPreOCF.__init__ <- PreOCF.init_custom (each caller uses the callee's contract) ---
+_SIGT = TOptional(TList(TStr))
+_PFIELDS = {"ranks": RanksT, "signature": _SIGT, "conditionals": TOpaque, "ranking_system": TStr, "_state": TOpaque, "_metadata": TOpaque}
+POBJ = TObj("PreOCF", _PFIELDS)
+COCF = TObj("CustomPreOCF", _PFIELDS)
+BBOBJ = TObj("BeliefBase", {"signature": TList(TStr), "conditionals": TOpaque})
+
+
+def _same_sig(a, b):
+    return z3.And(a.isnone == b.isnone, z3.Implies(z3.Not(a.isnone), a.val.t == b.val.t))
+
+
+def _stored(c, o, ranks):
+    return [c.field(o, "ranks").keys == ranks.keys, c.field(o, "ranks").val == ranks.val]
+
+
+Contract(
+    "inference.preocf:PreOCF.__init__",
+    params={"self": POBJ, "ranks": RanksT, "signature": _SIGT, "conditionals": TOpaque, "ranking_system": TStr, "metadata": TOpaque},
+    defaults={"metadata": lambda ex: VNone()},
+    returns=TNone,
+    ensures=lambda c, r: _stored(c, c.self, c.ranks) + [_same_sig(c.field(c.self, "signature"), c.signature)],
+    raises={"TypeError": lambda c: z3.BoolVal(True)},
+    modifies=["self." + k for k in _PFIELDS],
+    properties=["C18"],
+    note="the new object holds the ranks and the signature it was given",
+)
+
+Contract(
+    "inference.preocf:CustomPreOCF.__init__",
+    params={"self": COCF, "ranks": RanksT, "belief_base": TOptional(BBOBJ), "signature": _SIGT, "metadata": TOpaque},
+    defaults={"belief_base": lambda ex: VNone(), "signature": lambda ex: VNone(), "metadata": lambda ex: VNone()},
+    returns=TNone,
+    ensures=lambda c, r: _stored(c, c.self, c.ranks)
+    + [z3.Implies(z3.And(z3.Not(c.signature.isnone), LStr.len(c.signature.val.t) > 0), _same_sig(c.field(c.self, "signature"), c.signature))],
+    raises={"TypeError": lambda c: z3.BoolVal(True)},
+    modifies=["self." + k for k in _PFIELDS],
+    properties=["C18"],
+    note="a custom ranking holds the ranks it was given and a non-empty signature it was given (an empty one falls back to the belief base's)",
+)
+
 Contract(
     "inference.preocf:PreOCF.init_custom",
-    params={"cls": TOpaque, "ranks": RanksT, "belief_base": TNone, "signature": TOptional(TList(TStr)), "metadata": TOpaque},
+    params={"cls": TOpaque, "ranks": RanksT, "belief_base": TOptional(BBOBJ), "signature": _SIGT, "metadata": TOpaque},
+    defaults={"belief_base": lambda ex: VNone(), "signature": lambda ex: VNone(), "metadata": lambda ex: VNone()},
     returns=COCF,
-    ensures=lambda c, r: [
-        c.field(r, "ranks").keys == c.ranks.keys,
-        c.field(r, "ranks").val == c.ranks.val,
-        z3.Implies(z3.And(z3.Not(c.signature.isnone), LStr.len(c.signature.val.t) > 0), z3.And(z3.Not(c.field(r, "signature").isnone), c.field(r, "signature").val.t == c.signature.val.t)),
-    ],
-    trusted=True,
-    note="ASSUMED (CTOR): three straight-line constructor hops (init_custom -> CustomPreOCF.__init__ -> PreOCF.__init__) store the "
-    "ranks and a non-empty signature unchanged in the new object; exercised by Engine B (C18)",
+    ensures=lambda c, r: _stored(c, r, c.ranks)
+    + [z3.Implies(z3.And(z3.Not(c.signature.isnone), LStr.len(c.signature.val.t) > 0), _same_sig(c.field(r, "signature"), c.signature))],
+    raises={"TypeError": lambda c: z3.BoolVal(True)},
+    properties=["C18"],
+    note="the factory returns an object holding the ranks and a non-empty signature unchanged",
 )
 
 _JOIN = "''.join([world[i] for i in range(len(world)) if self.signature[i] not in marginalization])"
@@ -629,7 +667,7 @@ Contract(
     ensures=_marg_post,
     ghost_out={"kept": TList(TInt)},
     ghost_wit=lambda c, r: {"kept": c._st.env.get("__filter_pos_last", VList(LIntL.nil, TInt))},
-    raises={"ValueError": lambda c: c.field(c.self, "signature").isnone},
+    raises={"ValueError": lambda c: c.field(c.self, "signature").isnone, "TypeError": lambda c: z3.BoolVal(True)},
     abstractions={
         _JOIN: (
             lambda s: VStr(PJ(s.world.t, s.field(s.self, "signature").val.t, s.marginalization.t)),
@@ -642,4 +680,20 @@ Contract(
     fuel=7,
     note="every projected world that has a ranked extension gets the least rank of its ranked extensions (attained and a lower "
     "bound); no other key; the new signature is the subsequence of the atoms not marginalised away (ghost output: kept positions)",
+)
+
+
+def _crw_stored(c):
+    return _OI.wrap(z3.Select(c.field(c.self, "ranks").val, c.world.t))
+
+
+Contract(
+    "inference.preocf:CustomPreOCF.rank_world",
+    params={"self": COCF, "world": TStr, "force_calculation": TBool},
+    defaults={"force_calculation": lambda ex: VBool(False)},
+    returns=TInt,
+    ensures=lambda c, r: [mem_Str(_keys(c), c.world.t), z3.Not(_crw_stored(c).isnone), r.t == _crw_stored(c).val.t],
+    raises={"ValueError": lambda c: z3.Or(z3.Not(mem_Str(_keys(c), c.world.t)), _crw_stored(c).isnone)},
+    properties=["C18"],
+    note="a custom ranking answers with the stored rank and refuses (ValueError) exactly the worlds it has no rank for",
 )
